@@ -134,6 +134,7 @@ func runC09(p *eng.Prog, r *eng.Report, tier string) {
 		}
 		c09SingleClose(c, f)
 		nilLocation(c, "C09.2", f)
+		c19Base64As(c, "C09.3", f)
 		c09Index(c, f, why[f])
 		c09IterCurrent(c, f, why[f])
 	}
